@@ -29,6 +29,7 @@
  * Built with -fsanitize=thread (flavour tsan).  time() and arc4random_buf() are pinned.
  */
 #include "common.h"
+#include <sys/time.h>
 #include <fcntl.h>
 #include <pthread.h>
 #include <dirent.h>
@@ -334,7 +335,11 @@ static int fresh(int mode, int only, int attempt, uint64_t *out, const char *err
 	pid_t pid = fork();
 	if (pid == 0) {
 		close(pfd[0]);
-		alarm(60);
+		{	/* watchdog in CPU time (machine load must not trip it); wall-clock alarm only as a backstop */
+			struct itimerval it = { {0, 0}, {300, 0} };
+			setitimer(ITIMER_PROF, &it, NULL);
+			alarm(1500);
+		}
 		int efd = open(errpath, O_WRONLY | O_CREAT | O_TRUNC, 0644);
 		if (efd >= 0) { dup2(efd, 2); close(efd); }
 		uint64_t res[MAXWL] = {0};
